@@ -1064,6 +1064,7 @@ func (ls *LState) callR(nargs, nret, rbase int) {
 		Parent:     ls.currentFrame,
 		TailCall:   0,
 	}, lv, meta)
+	ls.nGoCalls++
 	if ls.G.MainThread == nil {
 		ls.G.MainThread = ls
 		ls.G.CurrentThread = ls
@@ -1071,6 +1072,7 @@ func (ls *LState) callR(nargs, nret, rbase int) {
 	} else {
 		ls.mainLoop(ls, ls.currentFrame)
 	}
+	ls.nGoCalls--
 	if nret != MultRet {
 		ls.reg.SetTop(rbase + nret)
 	}
@@ -1837,6 +1839,7 @@ func (ls *LState) PCall(nargs, nret int, errfunc *LFunction) (err error) {
 	err = nil
 	sp := ls.stack.Sp()
 	base := ls.reg.Top() - nargs - 1
+	ngocalls := ls.nGoCalls
 	oldpanic := ls.Panic
 	ls.Panic = panicWithoutTraceback
 	if errfunc != nil {
@@ -1847,6 +1850,7 @@ func (ls *LState) PCall(nargs, nret int, errfunc *LFunction) (err error) {
 		ls.hasErrorFunc = false
 		rcv := recover()
 		if rcv != nil {
+			ls.nGoCalls = ngocalls // the calls the error went through are gone
 			if _, ok := rcv.(*ApiError); !ok {
 				err = newApiErrorS(ApiErrorPanic, fmt.Sprint(rcv))
 				if ls.Options.IncludeGoStackTrace {
@@ -1875,6 +1879,7 @@ func (ls *LState) PCall(nargs, nret int, errfunc *LFunction) (err error) {
 							err = rcv.(*ApiError)
 							err.(*ApiError).StackTrace = ls.stackTrace(0)
 						}
+						ls.nGoCalls = ngocalls
 						ls.stack.SetSp(sp)
 						ls.currentFrame = ls.stack.Last()
 						ls.closeUpvalues(base)
